@@ -8,6 +8,10 @@ Multi-filter REQs on LMDB (one plan per filter, all made by ONE planner call and
 every filter is judged against its OWN limit — at most min(n_i, max_limit) events for filter i, not fewer
 than that when enough events match it, the newest ones — and the limit of the plan made for filter i inside
 the REQ is compared with the model's plan for filter i.
+Served answers (both backends, through the real websocket message loop): what the client is SENT before EOSE, after everything
+the relay does at serving time, against the stored events — stores whose newest matches carry NIP-40 expiration tags in the
+past / in the future / malformed (all of them stored: accepted on arrival, no collector has run), limits below, at and above the
+number of matches; also with the shipped whitelist output validator configured (property read over the events the client may see).
 """
 import random
 
@@ -326,6 +330,285 @@ def run_multi_case(report, scen, rng, reqs):
         kv_multi_limits(report, scen, gen_multi_req(rng, evs))
 
 
+# ---------------------------------------------------------------------------------------------
+# what the CLIENT is sent: the answer observed at the websocket, after everything the relay does at serving time
+# ---------------------------------------------------------------------------------------------
+# The cases above observe the answer where the backend hands it over (DBStorage.run_query / execute_one_plan).  The property
+# speaks about what the relay SENDS for a filter, and between the limited query and the socket sits whatever the relay does at
+# serving time (Subscription.run_query: the output check; the sender).  Anything that drops events THERE acts after the limit
+# was spent: the client gets fewer than min(limit, matches) events although older matches are stored, and a match that was
+# left out is newer than events that were sent.  So this family asks through the real `web.start_client` loop of a real
+# storage object (both backends) and judges the EVENT frames that arrive before EOSE against the stored events, with the
+# NIP-01 reference as the only notion of "matches".
+#
+# Stores: every state of per-event metadata that a serving-time rule could look at sits among the NEWEST matches — NIP-40
+# expiration tags in the past (below the event's own timestamp = expired on arrival, just above it = expired since, tiny
+# values), in the far future, malformed (not a number, empty, a fraction, negative, a second item missing), next to events
+# without any; the events were accepted on arrival and no collector has run, so all of them are STORED events and the property
+# quantifies over them.  Filters name one kind / one author / one author and one kind / one tag value (for these the order of
+# the answer is defined on both backends: C12_kv_single_* theorems, ORDER BY on SQL), optionally an `until` (paging).  Limits
+# are chosen against the number of matches m of the very filter (1, 2, m/2, m-1, m, m+1) and against max_limit (max-1, max,
+# max+1, 10^6, null, absent), stores against max_limit (up to more than twice it): no size is taken from any implementation.
+#
+# Second configuration: the shipped output validator of the homeserver recipe (only whitelisted authors are visible to an
+# unauthenticated client) hides the events of one of the two authors.  The property is then read over the events the client
+# may be sent at all ("visible"): see served_oracle.
+
+SERVED_AUTHORS = gen.AUTHORS[2:4]
+EXP_FUTURE = ["4102444800", "17000000000", "99999999999999"]            # 2100-01-01, the year 2508, far beyond
+EXP_MALFORMED = ["abc", "", "1700abc", "1.5e9", " ", "0x10", "NaN", "-"]
+WHITELIST_VALIDATOR = "nostr_relay.recipe.homeserver.whitelist_output_validator"
+OUTPUT_CHECK_CLASS = "output-check-after-limit"
+
+
+def expiration_tag(rng, state, created_at):
+    if state == "past":
+        v = rng.choice([str(created_at - 1000), str(created_at + 1), str(gen.T0 - 5), "1", "0", "999", "-1"])
+    elif state == "future":
+        v = rng.choice(EXP_FUTURE)
+    else:
+        if rng.random() < 0.12:
+            return ["expiration", "", rng.choice(EXP_MALFORMED)] if rng.random() < 0.5 else ["expiration", "abc", "1"]
+        v = rng.choice(EXP_MALFORMED)
+    return ["expiration", v]
+
+
+def served_store(rng, tier):
+    """(events, {id: state of its expiration tag}); mostly distinct timestamps so that 'the newest k' is one definite set"""
+    sizes = [5, 9, common.MAX_LIMIT + 3, 2 * common.MAX_LIMIT + 5]
+    if tier != "quick":
+        sizes += [3 * common.MAX_LIMIT + 6, 5 * common.MAX_LIMIT + 1]
+    n = rng.choice(sizes)
+    pool = rng.sample(range(0, 4 * n), n) + [0, 1, 1, 2, 255, 256]
+    mode = rng.choice(["past", "past", "mixed", "mixed", "mixed", "future", "malformed", "none"])
+    density = rng.choice([0.15, 0.3, 0.5, 0.8])
+    evs, marks = [], {}
+    for i in range(n):
+        e = gen.gen_event(rng, authors=SERVED_AUTHORS, kinds=[1, 1, 1, 7], times=[gen.T0 + rng.choice(pool)])
+        while any(x["id"] == e["id"] for x in evs):
+            e["id"] = gen.mkid(rng)
+        e["tags"] = [["t", rng.choice(["a", "b"])]]
+        if mode != "none" and rng.random() < density:
+            state = rng.choice(["past", "past", "future", "malformed"]) if mode == "mixed" else mode
+            tag = expiration_tag(rng, state, e["created_at"])
+            e["tags"].insert(rng.choice([0, 1]), tag)
+            marks[e["id"]] = state
+        evs.append(e)
+    return evs, marks
+
+
+def gen_served_filter(rng, evs):
+    shape = rng.choice(["kind", "kind", "author", "author+kind", "tag"])
+    f = {}
+    if shape in ("kind", "author+kind"):
+        f["kinds"] = [rng.choice([1, 1, 7])]
+    if shape in ("author", "author+kind"):
+        f["authors"] = [rng.choice(SERVED_AUTHORS)]
+    if shape == "tag":
+        f["#t"] = [rng.choice(["a", "b"])]
+    if rng.random() < 0.15:
+        f["until"] = rng.choice(evs)["created_at"] + rng.choice([0, 1])
+    return f
+
+
+def served_limit(rng, m):
+    """a limit chosen against the number m of stored matches of the filter, or against max_limit"""
+    pool = [1, 2, max(1, m // 2), m - 1, m, m, m + 1, common.MAX_LIMIT - 1, common.MAX_LIMIT, common.MAX_LIMIT + 1, 10 ** 6, None,
+            "absent", 0]
+    return rng.choice([x for x in pool if x in (None, "absent") or x >= 0])
+
+
+class Served:
+    """one real storage object of `backend` behind the real websocket message loop, loaded with `events` through the real
+    add_event (no validators: synthetic events are stored as they are; no collector is started)"""
+
+    def __init__(self, backend, events, whitelist=None):
+        from lib.proto import Relay, Conn
+        from nostr_relay.config import Config
+
+        self.backend = backend
+        self.whitelist = whitelist
+        self._config = Config
+        self._saved = (getattr(Config, "pubkey_whitelist", None),)
+        if whitelist is not None:
+            Config.pubkey_whitelist = list(whitelist)
+        self.relay = Relay(backend, validators=(), output_validator=WHITELIST_VALIDATOR if whitelist is not None else None)
+        try:
+            self.refused = 0
+            for e in events:
+                if not self.relay.store.add(e)["ok"]:
+                    self.refused += 1
+            self.stored = set(self.relay.store.ids())
+            self.conn = Conn(self.relay)
+            self.n = 0
+        except BaseException:
+            self.close()
+            raise
+
+    def ask(self, f):
+        """ids of the EVENT frames for one single-filter REQ, in the order sent, up to its EOSE; None if no EOSE arrived"""
+        c = self.conn
+        self.n += 1
+        sub = "q%d" % self.n
+        start = len(c.out)
+        c.send(["REQ", sub, dict(f)])
+        got = None
+        for attempt in range(4):
+            ids = []
+            for fr in c.frames(start):
+                if isinstance(fr, list) and len(fr) >= 2 and fr[1] == sub:
+                    if fr[0] == "EVENT" and len(fr) > 2 and isinstance(fr[2], dict):
+                        ids.append(fr[2].get("id"))
+                    elif fr[0] == "EOSE":
+                        got = ids
+                        break
+            if got is not None:
+                break
+            self.relay.settle()
+        c.send(["CLOSE", sub])
+        return got
+
+    def close(self):
+        try:
+            self.relay.close()
+        finally:
+            self._config.pubkey_whitelist = self._saved[0]
+
+
+def served_oracle(report, backend, f, q, sent, stored, by_id, whitelist, payload):
+    """The property, over what was sent.  `visible`: the stored events an unauthenticated client may be sent at all — every one
+    when no output validator is configured; with the whitelist validator those of a whitelisted author (restated here from its
+    documentation: 'output only events that are in the pubkey_whitelist', NIP-65 lists excepted)."""
+    def visible(e):
+        return whitelist is None or e["pubkey"] in whitelist or e["kind"] == 10002
+
+    strict = {i for i in stored if i in by_id and spec.matches(q, by_id[i], True)}
+    incl = {i for i in stored if i in by_id and spec.matches(q, by_id[i], False)}
+    vis_strict = {i for i in strict if visible(by_id[i])}
+    allowed = requested_limit(q)
+    where = "%s, served over the websocket%s: %r" % (backend, "" if whitelist is None else " (whitelist output validator)", f)
+    ts = {i: by_id[i]["created_at"] for i in incl}
+    if len(sent) != len(set(sent)):
+        report.property_failure("%s is sent an event twice" % where, payload, None)
+        return strict
+    if any(i not in incl for i in sent):
+        report.property_failure("%s is sent %d event(s) that are not stored events matching it"
+                                % (where, len([i for i in sent if i not in incl])), payload, None)
+        return strict
+    if len(sent) > allowed:
+        report.property_failure("%s is sent %d events, the limit allows at most %d" % (where, len(sent), allowed), payload, None)
+        return strict
+    omitted = vis_strict - set(sent)
+    if sent and omitted:
+        # the newest: nothing that was left out is newer than something that was sent
+        oldest_sent = min(ts[i] for i in sent)
+        newer = [i for i in omitted if ts[i] > oldest_sent]
+        if newer:
+            report.property_failure("%s: %d stored matching event(s) left out although newer than the oldest sent one (sent %d of %d "
+                                    "matches, limit allows %d)" % (where, len(newer), len(sent), len(vis_strict), allowed), payload, None)
+            return strict
+    if omitted and allowed >= len(incl):
+        # a limit that is not smaller than the number of matches truncates nothing
+        report.property_failure("%s: the limit allows %d and only %d stored events match, yet %d of them were left out"
+                                % (where, allowed, len(incl), len(omitted)), payload, None)
+        return strict
+    if len(sent) < min(allowed, len(vis_strict)):
+        # n events when n or more match: a short answer tells the client that nothing older exists
+        what = "%s is sent %d events although %d stored events %smatch and the limit allows %d" \
+            % (where, len(sent), len(vis_strict), "" if whitelist is None else "it may see ", allowed)
+        if whitelist is None:
+            report.property_failure(what, payload, None)
+        else:
+            # With an output validator CONFIGURED the shipped code applies it to the rows of the already limited query (both
+            # backends), so hidden events among the newest use up the limit: the answer is shorter than min(limit, visible
+            # matches) — even shorter than a limit that exceeds the number of visible matches.  That is the behaviour of the
+            # unchanged tree (reported to the maintainers as a candidate finding, class OUTPUT_CHECK_CLASS); it is counted
+            # in the evidence on every run, and judged as soon as known_findings.json carries an entry of that id (open: a
+            # KNOWN-FINDING line; fixed: a VIOLATION again).  The two clauses above (the newest; a limit not smaller than the
+            # number of ALL matches truncates nothing visible) are judged in this configuration regardless.
+            report.count("served_output_validator_short_answers")
+            if any(e.get("id") == OUTPUT_CHECK_CLASS for e in report.known):
+                report.property_failure(what, payload, OUTPUT_CHECK_CLASS)
+    return strict
+
+
+def validate_filter(f):
+    """the relay's own validation of a raw filter (None when it is refused)"""
+    from nostr_relay.storage.base import NostrQuery
+    from nostr_relay.errors import StorageError
+    from pydantic import ValidationError
+
+    try:
+        return NostrQuery.model_validate(dict(f))
+    except (ValidationError, StorageError, ValueError, TypeError):
+        return None
+
+
+def served_req(report, srv, f, evs, by_id, marks):
+    q = validate_filter(f)
+    if q is None or not spec.is_wellformed_conjunction(q):
+        return
+    payload = {"backend": srv.backend, "served": True, "filters": [f], "events": evs, "expiration_states": marks,
+               "whitelist": None if srv.whitelist is None else list(srv.whitelist)}
+    sent = srv.ask(f)
+    if sent is None:
+        # no EOSE: the protocol's business (C13), nothing to judge here
+        report.count("served_unanswered_" + srv.backend)
+        return
+    strict = served_oracle(report, srv.backend, f, q, sent, srv.stored, by_id, srv.whitelist, payload)
+    allowed = requested_limit(q)
+    # the window of the answer: the newest min(limit, matches) matches; is there per-event metadata / a hidden event inside?
+    window = sorted(strict, key=lambda i: -by_id[i]["created_at"])[:allowed]
+    in_window = {marks[i] for i in window if i in marks}
+    hidden_in_window = srv.whitelist is not None and any(by_id[i]["pubkey"] not in srv.whitelist for i in window)
+    for s in sorted(in_window):
+        report.count("served_expiration_%s_among_the_newest" % s)
+    if hidden_in_window:
+        report.count("served_hidden_event_among_the_newest")
+    report.count("served_limit_%s_matches" % ("below" if allowed < len(strict) else "equals" if allowed == len(strict) else "above"))
+    report.count("served_reqs_" + srv.backend + ("" if srv.whitelist is None else "_output_validator"))
+    report.case(("served", srv.backend, repr(f), len(evs), srv.whitelist is not None),
+                nontrivial=bool(window) and (bool(in_window) or hidden_in_window),
+                sample={"backend": srv.backend, "served": True, "filters": [f], "returned": len(sent), "matching": len(strict),
+                        "expiration_states_among_the_newest": sorted(in_window)})
+
+
+def run_served_case(report, rng, tier, reqs, whitelist=None):
+    evs, marks = served_store(rng, tier)
+    by_id = {e["id"]: e for e in evs}
+    # the same REQs on both backends
+    fs = []
+    for k in range(reqs):
+        f = gen_served_filter(rng, evs)
+        q = validate_filter(f)
+        m = len([e for e in evs if q is not None and spec.matches(q, e, True)])
+        lim = served_limit(rng, m)
+        if lim != "absent":
+            f["limit"] = lim
+        fs.append(f)
+    for backend in ("kv", "sql"):
+        srv = Served(backend, evs, whitelist=whitelist)
+        try:
+            report.count("served_stores_" + backend)
+            if srv.refused:
+                report.count("served_events_refused_on_arrival_" + backend, srv.refused)
+            for f in fs:
+                served_req(report, srv, dict(f), evs, by_id, marks)
+        finally:
+            srv.close()
+
+
+def replay_served(report, r):
+    evs = r["events"]
+    by_id = {e["id"]: e for e in evs}
+    marks = r.get("expiration_states") or {}
+    srv = Served(r["backend"], evs, whitelist=r.get("whitelist"))
+    try:
+        served_req(report, srv, dict(r["filters"][0]), evs, by_id, marks)
+    finally:
+        srv.close()
+
+
 def run_case(report, scen, rng):
     evs = dense_store(rng)
     scen.load(evs)
@@ -346,6 +629,9 @@ def run_case(report, scen, rng):
 
 
 def replay_one(report, scen, r):
+    if r.get("served"):
+        replay_served(report, r)
+        return
     scen.load(r["events"])
     if r.get("multi"):
         kv_multi_limits(report, scen, r["filters"])
@@ -367,7 +653,19 @@ def run(report, tier, seed):
         "planner call + the real executor over stores of 6 / max+4 / 2*max+5 / 3*max+6 events, neighbouring filters with different "
         "limits (small, 0, max-1, max, max+1, 10^6, null, absent in both orders): per filter at most min(n_i, max_limit), not fewer "
         "when enough match, the newest; plan limit and answer of every filter compared with the model; non-trivial = at least one "
-        "filter truncated by its own limit and at least two different limits in the REQ" % common.MAX_LIMIT)
+        "filter truncated by its own limit and at least two different limits in the REQ; "
+        "served answers: single-filter REQs (ONE kind / author / author+kind / tag value, optional until) through web.start_client "
+        "of a real storage object of either backend over stores of 5 / 9 / max+3 / 2*max+5 events (thorough: up to 5*max+1) in which "
+        "a share (15-80 %%) of the events carries an expiration tag in the past (below / just above its own timestamp, tiny, "
+        "negative), in the far future, or malformed, accepted on arrival and never collected, x limits 0, 1, 2, m/2, m-1, m, m+1 "
+        "(m = stored matches of the filter), max-1, max, max+1, 10^6, null, absent: the EVENT frames before EOSE are stored "
+        "matches, no duplicates, at most min(n, max_limit), exactly that many when that many match, none left out newer than a "
+        "sent one, nothing left out when the limit is not smaller than the number of matches; the same with the homeserver "
+        "recipe's whitelist output validator hiding one author (judged over the events visible to the client: the newest, and a "
+        "limit not smaller than the number of all matches truncates nothing; answers shorter than min(limit, visible matches) — "
+        "the validator runs after the limit — are counted as served_output_validator_short_answers, judged only when "
+        "known_findings.json has an entry %s); non-trivial = an event with an expiration tag / a hidden event lies among the "
+        "newest min(limit, matches) matches" % (common.MAX_LIMIT, OUTPUT_CHECK_CLASS))
     report.assumptions += ["Config.max_limit is set to %d by the harness before the storage modules are imported" % common.MAX_LIMIT]
     try:
         for e in report.known:
@@ -377,6 +675,11 @@ def run(report, tier, seed):
         # after the single-filter cases, so that those are the same cases as before for a given seed
         for i in range(16 if tier == "quick" else 300):
             run_multi_case(report, scen, rng, reqs=10 if tier == "quick" else 16)
+        # after those, for the same reason: what the client is sent over the websocket
+        for i in range(14 if tier == "quick" else 200):
+            run_served_case(report, rng, tier, reqs=8 if tier == "quick" else 14)
+        for i in range(4 if tier == "quick" else 60):
+            run_served_case(report, rng, tier, reqs=8 if tier == "quick" else 14, whitelist=[SERVED_AUTHORS[0]])
     finally:
         scen.close()
         drv.close()
